@@ -1177,6 +1177,8 @@ func (x *Exec) runRegionP(st *State, fr *Frame, b *ssa.BasicBlock, prev *ssa.Bas
 				if phi.Comment != "" {
 					fr.names[phi.Comment] = TV{phiv[k], phi.Type()}
 				}
+				// phi1, phi2, ...: the loop-carried variables of the block by position (robust against renaming)
+				fr.names[fmt.Sprintf("phi%d", k+1)] = TV{phiv[k], phi.Type()}
 			}
 		}
 		phiBound = false
